@@ -1,0 +1,18 @@
+//go:build verif
+
+// Hook for the verification harness in /verif (property C09). Add-only: not
+// compiled without the `verif` build tag, changes no behaviour.
+
+package uasc
+
+import "github.com/gopcua/opcua/ua"
+
+// VerifSetChannelSecurity overwrites the SecurityPolicyURI and SecurityMode of
+// the channel configuration this instance reads in signAndEncrypt /
+// verifyAndDecrypt (what readChunk and handleOpenSecureChannelRequest do while
+// a channel is being opened), leaving the instance's algorithm and keys as
+// they are.
+func (v *VerifInstance) VerifSetChannelSecurity(policyURI string, mode ua.MessageSecurityMode) {
+	v.C.sc.cfg.SecurityPolicyURI = policyURI
+	v.C.sc.cfg.SecurityMode = mode
+}
